@@ -759,6 +759,10 @@ impl XmlAttribute {
             let attr = XmlAttribute::node(&tree, self.parent_id(), self.context())?;
             // TODO: remove id from id_map.
             let attr = attr.as_attribute().unwrap();
+            // the pieces of the old value are removed from the attribute: they have no parent any more
+            for v in self.values.borrow().iter() {
+                v.set_parent_id(None);
+            }
             self.values.borrow_mut().clear();
 
             for v in attr.borrow().values.borrow().as_slice() {
